@@ -478,6 +478,18 @@ def step (st : St) (j : Json) : St × Json :=
       (AD.bytesList (j.getObjVal? "allowed" |>.toOption.getD Json.null))
     (st, Json.mkObj [("verdict", Json.str (AD.verdictStr r.1)),
       ("allowed", Json.arr ((r.2.map toHex).toArray.qsort (· < ·) |>.map Json.str))])
+  | "adm.getValidator" =>
+    -- entries: "unresolved" | "notCallable" | the verdict ("ok" / "reject" / "raises") the named function gives this event
+    let es : List (NostrRelay.Admission.Entry Unit) := (getArr j "entries").toList.map fun x =>
+      match x.getStr?.toOption.getD "" with
+      | "unresolved" => .unresolved
+      | "notCallable" => .notCallable
+      | "ok" => .fn (fun _ => .ok)
+      | "reject" => .fn (fun _ => .reject)
+      | _ => .fn (fun _ => .raises)
+    (st, match NostrRelay.Admission.getValidator es with
+      | none => Json.null
+      | some v => Json.str (AD.verdictStr (v ())))
   | "adm.auth" => (st, Json.str (AD.verdictStr (NostrRelay.Admission.authenticate (getInt j "now") (AD.parseAuthFacts (j.getObjVal? "facts" |>.toOption.getD Json.null)))))
   | "adm.canDo" =>
     let ar : Option (List Char) := match j.getObjVal? "action_roles" with | .ok (Json.str r) => some r.toList | _ => none
